@@ -197,6 +197,10 @@ def one_path(eng, run, c, fi, nested, self_cls, rep):
         frame.qualname = fi.qualname + ".<locals>." + nested.name
     else:
         frame.qualname = fi.qualname
+        if fi.kind == "classmethod" and a.args and fi.cls is not None:
+            # closed class table: a classmethod is called on the class that defines it (no subclass overrides it)
+            frame.vars[a.args[0].arg] = ClassRef(fi.cls)
+            run.assumptions_used.add(f"classmethod {fi.qualname}: cls is the defining class (closed class table)")
     frame.is_verified_root = True
     if a.kwarg is not None and nested is None:
         # **kwargs is a dict created by the call itself: the callee owns it.  Bind the local to a FRESH dict whose
